@@ -39,6 +39,10 @@ CHECKS = {
          "Tie: implementation encodings parsed and typed field by field vs the Lean tree; decode∘encode on the implementation; the float assumption checked on thousands of real doubles; Redis name functions/validators/marker vs the model; Job.enqueue→consume on in-memory, fake-Redis and fake-RabbitMQ brokers (inline and bucket transport, all priorities, generated argument values) against an independently written payload document.",
          "json / isoformat / float repr are trusted library behaviour; Redis and RabbitMQ servers are in-process fakes (assumption sets R, A). One genuine defect (F14, priority 0 on RabbitMQ) repaired by fix: commit 8741207.",
          "Lean 4 proof (incl. a Mathlib-based rational/floor argument) + differential correspondence on three brokers", "§5 C07"),
+ "C08": ("Lean: basic_binds_spec_partial — for EVERY well-formed signature (five parameter kinds, defaults, dependencies mixed in) and every non-empty payload the call made through BasicConverter (convert_inputs composed with a model of CPython's call binding) equals the SPEC of the statement; basic_no_args_binds_spec; pydantic_binds_spec (all supported signatures, all payloads); converters_agree; missing_required_fails; no_args_runs_defaults; refutation basic_varargs_collision_witness. "
+         "Tie: random programs compiled to real async defs, registered through Router.actor (basic / pydantic / default selection, both decorator forms) and run through the real _Processor.actor_run: what the body received vs the models and vs the SPEC; CPython's binding differentially tested against Conv.call; convert_outputs parsed back.",
+         "values already typed (parameters unannotated); dependency resolution itself is C18. PARTIAL: known finding F6b; two genuine defects (inspect._empty for a missing required argument; pydantic + empty payload) repaired by fix: commits e7907ca, 6b4d5d8.",
+         "Lean 4 proof (list/lookup reasoning, ~600 lines) + program-level differential correspondence", "§5 C08"),
  "C09": ("Lean: transition system of the runner's slot bookkeeping (deliver / pause / acquire / hand-over / wake chain / spawn / done / cancellation; asyncio.Semaphore 3.12 semantics); invariant slots-conserved ∧ no-blocked-waiter-with-a-free-slot ∧ started = processed + in-flight for EVERY event sequence: inflight_le_limit, no_lost_wakeup, progress, done_frees. "
          "Tie: step-level acceptor — the real runner's counters after EVERY event-loop callback of real Worker runs (limits × queues × durations × arrivals × pause latency × store faults) must be explained by model events (subset construction over hidden state); running actor bodies ≤ limit at every callback; all jobs executed before the bound.",
          "liveness on the implementation observed up to a virtual-time bound; semaphore fairness trusted.",
